@@ -332,3 +332,6 @@ RULES = [
     ("C18.TWINARGS", 5, rule_twinargs),
     ("C18.RESAMPLE", 9, rule_resample),
 ]
+
+from . import common as _common_purity
+RULES = RULES + _common_purity.purity_rules("C18")
